@@ -54,6 +54,10 @@ def variants_of(traits, rnd, tier):
         out.append(("attr-split", ["#[derive_ex(%s)]" % ", ".join(traits[:k]), "#[derive_ex(%s)]" % ", ".join(traits[k:])]))
         out.append(("derive-split", ["#[derive(Ex)]", "#[derive_ex(%s)]" % ", ".join(traits[:k]), "#[derive_ex(%s)]" % ", ".join(traits[k:])]))
         out.append(("attr-one-per-list", ["#[derive_ex(%s)]" % t for t in traits]))
+        # lists that are not adjacent: a doc comment and a foreign attribute between them
+        out.append(("derive-split-with-gap", ["#[derive(Ex)]", "#[derive_ex(%s)]" % ", ".join(traits[:k]), "/// something between the lists", "#[allow(dead_code)]",
+                                              "#[derive_ex(%s)]" % ", ".join(traits[k:])]))
+        out.append(("attr-split-with-gap", ["#[derive_ex(%s)]" % ", ".join(traits[k:]), "#[allow(dead_code)]", "/// something between the lists", "#[derive_ex(%s)]" % ", ".join(traits[:k])]))
         out.append(("attr-reordered", ["#[derive_ex(%s)]" % ", ".join(reversed(traits))]))
     return out
 
@@ -312,6 +316,44 @@ def build_co_derived_copy(name):
     return kani_runner.Program(name, src, "co-derived-copy|clone", desc, True)
 
 
+CO_DERIVED_ORD = """
+// PartialOrd / PartialEq requested alone vs with Ord / Eq (/ Hash / Clone) alongside, in the same list, in another list and through the derive entry:
+// `partial_cmp` and `==` are the same impls. The field `a` is totally ordered by Ord and only partially by PartialOrd; the field `b` has different keys for the two.
+__ITEMS__
+
+pub fn check<S: Src>(s: &mut S) {
+    let (a, b, c, d) = (s.u8(), s.u8(), s.u8(), s.u8());
+    let want = S0 { a: Wo(a), b }.partial_cmp(&S0 { a: Wo(c), b: d });
+    let weq = S0 { a: Wo(a), b } == S0 { a: Wo(c), b: d };
+    cover!(want.is_none(), "incomparable");
+    cover!(want == Some(Ordering::Equal) && b != d, "equal-through-the-partial_ord-key-only");
+    assert!(S1 { a: Wo(a), b }.partial_cmp(&S1 { a: Wo(c), b: d }) == want && (S1 { a: Wo(a), b } == S1 { a: Wo(c), b: d }) == weq, "struct-partial_cmp-differs-with-ord-alongside");
+    assert!(S2 { a: Wo(a), b }.partial_cmp(&S2 { a: Wo(c), b: d }) == want && (S2 { a: Wo(a), b } == S2 { a: Wo(c), b: d }) == weq, "struct-partial_cmp-differs-with-ord-in-another-list");
+    assert!(S3 { a: Wo(a), b }.partial_cmp(&S3 { a: Wo(c), b: d }) == want && (S3 { a: Wo(a), b } == S3 { a: Wo(c), b: d }) == weq, "struct-partial_cmp-differs-through-derive-entry");
+    let (sx, sy) = (s.below(3), s.below(3));
+    macro_rules! mk { ($t:ident, $sel:expr, $p:expr, $q:expr) => { match $sel { 0 => $t::A(Wo($p)), 1 => $t::B { x: $q, y: Wo($p) }, _ => $t::C } }; }
+    let ewant = mk!(E0, sx, a, b).partial_cmp(&mk!(E0, sy, c, d));
+    let eweq = mk!(E0, sx, a, b) == mk!(E0, sy, c, d);
+    assert!(mk!(E1, sx, a, b).partial_cmp(&mk!(E1, sy, c, d)) == ewant && (mk!(E1, sx, a, b) == mk!(E1, sy, c, d)) == eweq, "enum-partial_cmp-differs-with-ord-alongside");
+    assert!(mk!(E2, sx, a, b).partial_cmp(&mk!(E2, sy, c, d)) == ewant && (mk!(E2, sx, a, b) == mk!(E2, sy, c, d)) == eweq, "enum-partial_cmp-differs-through-derive-entry");
+}
+
+"""
+
+
+def build_co_derived_ord(name):
+    desc = "PartialOrd / PartialEq alone vs with Ord / Eq / Hash / Clone requested alongside (same list, other list, derive entry), field with a partial order and different keys per trait"
+    sbody = "pub struct %s { pub a: Wo, #[partial_ord(key = kk::<1, _>(&$))] #[ord(key = kk::<2, _>(&$))] pub b: u8 }"
+    ebody = "pub enum %s { A(Wo), B { #[partial_ord(key = kk::<1, _>(&$))] #[ord(key = kk::<2, _>(&$))] x: u8, y: Wo }, C }"
+    items = [("#[derive_ex(PartialOrd, PartialEq)]", sbody, "S0"), ("#[derive_ex(PartialOrd, PartialEq, Ord, Eq)]", sbody, "S1"),
+             ("#[derive_ex(Ord, Eq, Hash, Clone)]\n#[derive_ex(PartialEq, PartialOrd)]", sbody, "S2"), ("#[derive(Ex)]\n#[derive_ex(Eq, Ord, PartialOrd, PartialEq)]", sbody, "S3"),
+             ("#[derive_ex(PartialOrd, PartialEq)]", ebody, "E0"), ("#[derive_ex(Ord, PartialOrd, Eq, PartialEq)]", ebody, "E1"),
+             ("#[derive(Ex)]\n#[derive_ex(PartialEq, PartialOrd)]\n#[derive_ex(Eq, Ord)]", ebody, "E2")]
+    text = CO_DERIVED_ORD.replace("__ITEMS__", "\n".join("%s\n%s" % (at, bd % nm) for at, bd, nm in items))
+    src = e1.HEADER.format(pid=PID, name=name, desc=desc) + text + e1.harness(unwind=18)
+    return kani_runner.Program(name, src, "co-derived-ord|partial_cmp+eq", desc, True)
+
+
 def build_field_level(name):
     desc = "field- and variant-level derive_ex lists: merged vs split vs split in the other order, both entry points"
     src = e1.HEADER.format(pid=PID, name=name, desc=desc) + FIELD_LEVEL + e1.harness(unwind=18)
@@ -329,6 +371,7 @@ def run(tier):
             progs.append(build("p%05d" % len(progs), body_id, rnd, tier, superset=True))
     progs.append(build_field_level("p%05d" % len(progs)))
     progs.append(build_co_derived_copy("p%05d" % len(progs)))
+    progs.append(build_co_derived_ord("p%05d" % len(progs)))
     try:
         eng, obl = e3_kernel(out)
         extra = {"e3_obligations": obl.total, "e3_discharged": obl.discharged, "e3_functions": obl.functions, "e3_solver_time_s": round(obl.solver_time, 2)}
